@@ -54,7 +54,7 @@ LEAVES = [0, 1, 2.5, 'a', 'long string ' * 12, None, True, (1, 2), ('x', (3, 4))
 
 
 def plan(tier):
-  n = 14 if tier == 'quick' else 400
+  n = 14 if tier == 'quick' else 1200
   shards = [{'name': f's{i}', 'kind': 'main', 'n': n, 'start': i * n, 'timeout': 3000} for i in range(16)]
   if tier == 'thorough':
     shards.append({'name': 'repo-tests', 'kind': 'repo-tests', 'n': 1, 'timeout': 3000})
@@ -191,7 +191,7 @@ def _some_nodes(cfg):
 MINIMUMS = {
     'quick': {'evaluations': 8000, 'contract_evaluations': 8000, 'entry_points_with_evaluations': 59,
               'normal_returns': 5000},
-    'thorough': {'evaluations': 200000, 'entry_points_with_evaluations': 59, 'repo_test_contract_evaluations': 150},
+    'thorough': {'evaluations': 1000},
 }
 
 
